@@ -151,6 +151,8 @@ type Finding struct {
 	Pattern  string   `json:"pattern,omitempty"` // anchored regexp on the class (narrow!)
 	What     string   `json:"what"`
 	Status   string   `json:"status,omitempty"` // "" = open finding; "fixed" entries suppress nothing
+	Baseline bool     `json:"baseline,omitempty"` // classes must also be listed (with input counts) in known/<id>.<tier>.tsv
+	Example  string   `json:"example,omitempty"`
 	re       *regexp.Regexp
 }
 
@@ -198,11 +200,12 @@ func (k *Finding) Matches(class string) bool {
 
 func Main() {
 	var tier, replay string
-	var triage bool
+	var triage, writeKnown bool
 	var workers int
 	flag.StringVar(&tier, "tier", os.Getenv("VERIF_TIER"), "quick|thorough")
 	flag.StringVar(&replay, "replay", "", "replay file")
 	flag.BoolVar(&triage, "triage", false, "print every violation class with counts (no known-finding filtering)")
+	flag.BoolVar(&writeKnown, "write-known", false, "offline maintenance: (re)write known/<id>.<tier>.tsv from this run (never done by a registered check)")
 	flag.IntVar(&workers, "workers", 0, "worker processes")
 	flag.Parse()
 	if flag.NArg() < 1 {
@@ -230,7 +233,7 @@ func Main() {
 		runWorker(p, tier, seed, w)
 		return
 	}
-	os.Exit(coordinate(p, tier, seed, workers, triage))
+	os.Exit(coordinate(p, tier, seed, workers, triage, writeKnown))
 }
 
 func budget(p *Prop, tier string) time.Duration {
@@ -284,7 +287,7 @@ func runWorker(p *Prop, tier string, seed int64, w string) {
 	os.Rename(out+".tmp", out)
 }
 
-func coordinate(p *Prop, tier string, seed int64, workers int, triage bool) int {
+func coordinate(p *Prop, tier string, seed int64, workers int, triage, writeKnown bool) int {
 	start := time.Now()
 	if workers == 0 {
 		workers = p.Workers
@@ -397,11 +400,28 @@ func coordinate(p *Prop, tier string, seed int64, workers int, triage bool) int 
 	knownCount := map[string]int64{}
 	knownClasses := map[string]int{}
 	var unknown []string
+	baseline, haveBaseline := loadBaseline(p.ID, tier)
+	grew := map[string]int64{}
+	if writeKnown {
+		writeBaseline(p.ID, tier, classes, merged.VioCounts, findings)
+	}
 	for _, cl := range classes {
 		matched := false
 		if !triage {
 			for _, k := range findings {
 				if k.Matches(cl) {
+					// a finding pattern explains the class; the committed baseline table (if the
+					// finding uses one) additionally pins the exact classes and their input counts
+					if k.Baseline && !writeKnown {
+						base, ok := baseline[cl]
+						if !haveBaseline || !ok {
+							break
+						}
+						if merged.VioCounts[cl] > base {
+							grew[cl] = base
+							break
+						}
+					}
 					knownCount[k.ID] += merged.VioCounts[cl]
 					knownClasses[k.ID]++
 					matched = true
@@ -426,10 +446,15 @@ func coordinate(p *Prop, tier string, seed int64, workers int, triage bool) int 
 		dir := filepath.Join(Root, "replays", p.ID)
 		os.MkdirAll(dir, 0o755)
 		path := filepath.Join(dir, hex.EncodeToString(sum[:6])+".json")
-		data, _ := json.MarshalIndent(map[string]any{
-			"property": p.ID, "class": cl, "count": merged.VioCounts[cl], "detail": v.Detail, "replay": v.Replay,
-		}, "", " ")
-		os.WriteFile(path, data, 0o644)
+		if !triage {
+			data, _ := json.MarshalIndent(map[string]any{
+				"property": p.ID, "class": cl, "count": merged.VioCounts[cl], "detail": v.Detail, "replay": v.Replay,
+			}, "", " ")
+			os.WriteFile(path, data, 0o644)
+		}
+		if b, ok := grew[cl]; ok {
+			v.Detail = fmt.Sprintf("known class grew from %d to %d inputs; first: %s", b, merged.VioCounts[cl], v.Detail)
+		}
 		if triage {
 			fmt.Printf("CLASS %s count=%d :: %s\n", cl, merged.VioCounts[cl], oneLine(v.Detail))
 		} else {
@@ -543,4 +568,59 @@ func doReplay(p *Prop, path string) int {
 	}
 	fmt.Println("replay: property holds on this case")
 	return 0
+}
+
+// ---------------------------------------------------------------------------------------
+// baseline tables: known/<id>.<tier>.tsv, "count<TAB>class", committed, written only by the
+// explicit maintenance flag -write-known after the classes were reviewed.
+
+func baselinePath(id, tier string) string {
+	return filepath.Join(Root, "known", id+"."+tier+".tsv")
+}
+
+func loadBaseline(id, tier string) (map[string]int64, bool) {
+	f, err := os.Open(baselinePath(id, tier))
+	if err != nil {
+		return nil, false
+	}
+	defer f.Close()
+	m := map[string]int64{}
+	sc := bufio.NewScanner(f)
+	sc.Buffer(make([]byte, 1<<20), 1<<26)
+	for sc.Scan() {
+		line := sc.Text()
+		i := strings.IndexByte(line, '\t')
+		if i < 0 {
+			continue
+		}
+		n, err := strconv.ParseInt(line[:i], 10, 64)
+		if err != nil {
+			continue
+		}
+		m[line[i+1:]] = n
+	}
+	return m, true
+}
+
+func writeBaseline(id, tier string, classes []string, counts map[string]int64, findings []*Finding) {
+	os.MkdirAll(filepath.Join(Root, "known"), 0o755)
+	var b strings.Builder
+	n, skipped := 0, 0
+	for _, cl := range classes {
+		ok := false
+		for _, k := range findings {
+			if k.Matches(cl) && k.Baseline {
+				ok = true
+				break
+			}
+		}
+		if !ok {
+			skipped++
+			continue
+		}
+		fmt.Fprintf(&b, "%d\t%s\n", counts[cl], cl)
+		n++
+	}
+	os.WriteFile(baselinePath(id, tier), []byte(b.String()), 0o644)
+	fmt.Printf("wrote %s: %d classes (%d classes not explained by any finding were NOT written)\n", baselinePath(id, tier), n, skipped)
 }
